@@ -184,4 +184,336 @@ Proof.
     rewrite get_put_other by lia. unfold f1. rewrite <- (alloc_snd f n0) at 1. apply get_alloc_new.
 Qed.
 
+
+Lemma dentry_reach f pre dd n i : rwalk f D pre = Some dd -> blookup n (ents f dd) = Some i -> reach f dd /\ reach f i.
+Proof.
+  intros Hw Hb. assert (R : reach f dd) by (apply (rwalk_reach D f pre D dd); [constructor|auto]).
+  split; auto. apply (reach_step D f dd n i); auto. apply blookup_In; auto.
+Qed.
+
+Lemma dentry_notD f dd n i : wf f -> reach f dd -> blookup n (ents f dd) = Some i -> i <> D.
+Proof. intros W R Hb E. subst. apply (wf_notD D f W dd n R). apply blookup_In; auto. Qed.
+
+(* ---------------- removing an entry ---------------- *)
+Lemma step_del_ent (T : N -> bytes -> Prop) b f pre n dd :
+  wf f -> b <= f_next f -> rwalk f D pre = Some dd -> is_dir f dd = true -> T dd n ->
+  step T b f (del_ent f dd n) /\ blookup n (ents (del_ent f dd n) dd) = None.
+Proof.
+  intros W Hb Hw Hd HT.
+  assert (Rdd : reach f dd) by (apply (rwalk_reach D f pre D dd); [constructor|auto]).
+  apply is_dir_dir_of in Hd. destruct Hd as (p & es & Hdir).
+  assert (Hes : ents f dd = es) by (apply (dir_of_ents _ _ _ _ Hdir)).
+  pose proof (wf_names D f W dd Rdd) as [Hnd Hok]. rewrite Hes in Hnd, Hok.
+  unfold del_ent. rewrite Hdir. split.
+  - apply (step_set_ents D T b f dd p es); auto.
+    + intros m Hm. apply blookup_bremove_other. intro; subst; auto.
+    + apply bremove_nodup; auto.
+    + apply Forall_forall. intros x Hx. apply bremove_fst_In in Hx.
+      rewrite Forall_forall in Hok. auto.
+    + intros m x Hin. apply bremove_In in Hin. rewrite <- Hes in Hin. split; [|split].
+      * apply (wf_target D f W dd m x Rdd Hin).
+      * intro; subst. apply (wf_notD D f W dd m Rdd Hin).
+      * left. exists m. rewrite <- Hes. exact Hin.
+    + intros m1 m2 x I1 I2 Hdx. apply bremove_In in I1, I2. rewrite <- Hes in I1, I2.
+      apply (wf_single D f W dd dd m1 m2 x); auto.
+  - destruct (dir_of_get f dd p es Hdir) as [m Hg]. rewrite (set_ents_get f dd p es m _ Hg).
+    unfold ents, dir_of. rewrite get_put_same. apply blookup_bremove_same. exact Hnd.
+Qed.
+
+(* ---------------- a second name for an inode inside that is no directory ---------------- *)
+Lemma step_add_link (T : N -> bytes -> Prop) b f pre n dd i :
+  wf f -> b <= f_next f -> rwalk f D pre = Some dd -> is_dir f dd = true -> okname n ->
+  blookup n (ents f dd) = None -> T dd n -> reach f i -> is_dir f i = false -> i <> D ->
+  step T b f (add_ent f dd n i) /\ blookup n (ents (add_ent f dd n i) dd) = Some i.
+Proof.
+  intros W Hb Hw Hd Hn Hb0 HT Ri Hdi HiD.
+  assert (Rdd : reach f dd) by (apply (rwalk_reach D f pre D dd); [constructor|auto]).
+  apply is_dir_dir_of in Hd. destruct Hd as (p & es & Hdir).
+  assert (Hes : ents f dd = es) by (apply (dir_of_ents _ _ _ _ Hdir)).
+  pose proof (wf_names D f W dd Rdd) as [Hnd Hok]. rewrite Hes in Hnd, Hok, Hb0.
+  unfold add_ent. rewrite Hdir. split.
+  - apply (step_set_ents D T b f dd p es); auto.
+    + intros m Hm. rewrite blookup_app. destruct (blookup m es); auto.
+      simpl. rewrite bytes_eqb_false; auto. intro; subst; auto.
+    + rewrite map_app. simpl. apply NoDup_snoc; auto. apply blookup_None_notin. exact Hb0.
+    + rewrite map_app. apply Forall_app. split; auto. constructor; auto.
+    + intros m x Hin. apply in_app_or in Hin. destruct Hin as [Hin|[Hin|[]]].
+      * rewrite <- Hes in Hin. split; [|split].
+        -- apply (wf_target D f W dd m x Rdd Hin).
+        -- intro; subst. apply (wf_notD D f W dd m Rdd Hin).
+        -- left. exists m. rewrite <- Hes. exact Hin.
+      * inversion Hin; subst. split; [apply (reach_lt D f x W Ri)|]. split; auto.
+    + intros m1 m2 x I1 I2 Hdx. apply in_app_or in I1. apply in_app_or in I2.
+      destruct I1 as [I1|[I1|[]]], I2 as [I2|[I2|[]]].
+      * rewrite <- Hes in I1, I2. apply (wf_single D f W dd dd m1 m2 x); auto.
+      * inversion I2; subst. congruence.
+      * inversion I1; subst. congruence.
+      * inversion I1; inversion I2; subst. reflexivity.
+  - destruct (dir_of_get f dd p es Hdir) as [m Hg]. rewrite (set_ents_get f dd p es m _ Hg).
+    unfold ents, dir_of. rewrite get_put_same. rewrite blookup_app, Hb0. simpl. rewrite bytes_eqb_refl. reflexivity.
+Qed.
+
+(* ---------------- metadata / content of the inode an entry names ---------------- *)
+Lemma step_set_meta (T : N -> bytes -> Prop) b f pre dd n i nd m' :
+  wf f -> b <= f_next f -> rwalk f D pre = Some dd -> blookup n (ents f dd) = Some i -> get f i = Some nd ->
+  step T b f (put f i (set_meta nd m')).
+Proof.
+  intros W Hb Hw Hbl Hg. destruct (dentry_reach f pre dd n i Hw Hbl) as [Rdd Ri].
+  apply (step_put_keep D T b f i nd); auto.
+  - apply (dentry_notD f dd n i W Rdd Hbl).
+Qed.
+
+
+(* ---------------- rename inside one directory ---------------- *)
+Lemma set_ents_twice f dd p es es1 es2 :
+  dir_of f dd = Some (p, es) -> set_ents (set_ents f dd es1) dd es2 = set_ents f dd es2.
+Proof.
+  intros Hdir. destruct (dir_of_get f dd p es Hdir) as [m Hg].
+  rewrite (set_ents_get f dd p es m es1 Hg).
+  rewrite (set_ents_get _ dd p es1 (with_mtime m now_mark) es2) by (apply get_put_same).
+  rewrite put_put. rewrite (set_ents_get f dd p es m es2 Hg). reflexivity.
+Qed.
+
+Definition T2 (dd : N) (n1 n2 : bytes) : N -> bytes -> Prop := fun d m => d = dd /\ (m = n1 \/ m = n2).
+
+Lemma firstn_all_ge {A} (l : list A) k : firstn k l = l -> (length l <= k)%nat.
+Proof.
+  intros H. destruct (le_lt_dec (length l) k); auto.
+  assert (length (firstn k l) = k) by (apply firstn_length_le; lia). rewrite H in H0. lia.
+Qed.
+
+(* a step that only touches entries of the directory at [pre] leaves the way to it alone *)
+Lemma rwalk_parent_kept b f f' pre dd n1 n2 :
+  wf f -> rwalk f D pre = Some dd -> is_dir f dd = true -> step (T2 dd n1 n2) b f f' ->
+  rwalk f' D pre = Some dd.
+Proof.
+  intros W Hw Hd S. rewrite <- Hw. apply (rwalk_step D (T2 dd n1 n2) b f f' W S pre D (reach_refl D f)).
+  apply (avoids_by_path D (T2 dd n1 n2) f W pre).
+  - intros d m [-> _]. auto.
+  - intros k m _ Hk. apply firstn_all_ge in Hk. intro E.
+    assert (nth_error pre k = None) by (apply nth_error_None; exact Hk). congruence.
+Qed.
+
+Lemma step_move b f pre dd n1 n2 i :
+  wf f -> b <= f_next f -> rwalk f D pre = Some dd -> is_dir f dd = true -> okname n2 -> n1 <> n2 ->
+  blookup n1 (ents f dd) = Some i ->
+  let f1 := del_ent f dd n1 in
+  let f2 := match dir_of f1 dd with Some (_, es) => set_ents f1 dd (bset n2 i es) | None => f1 end in
+  let f3 := if is_dir f i then set_parent f2 i dd else f2 in
+  step (T2 dd n1 n2) b f f3 /\ blookup n2 (ents f3 dd) = Some i.
+Proof.
+  intros W Hb Hw Hd Hn2 Hne Hb1 f1 f2 f3.
+  destruct (dentry_reach f pre dd n1 i Hw Hb1) as [Rdd Ri].
+  pose proof (dentry_notD f dd n1 i W Rdd Hb1) as HiD.
+  pose proof Hd as Hd0.
+  apply is_dir_dir_of in Hd. destruct Hd as (p & es & Hdir).
+  assert (Hes : ents f dd = es) by (apply (dir_of_ents _ _ _ _ Hdir)).
+  pose proof (wf_names D f W dd Rdd) as [Hnd Hok]. rewrite Hes in Hnd, Hok, Hb1.
+  assert (Hd1 : dir_of f1 dd = Some (p, bremove n1 es)).
+  { unfold f1, del_ent. rewrite Hdir. destruct (dir_of_get f dd p es Hdir) as [m Hg].
+    rewrite (set_ents_get f dd p es m _ Hg). unfold dir_of. rewrite get_put_same. reflexivity. }
+  assert (E2 : f2 = set_ents f dd (bset n2 i (bremove n1 es))).
+  { unfold f2. rewrite Hd1. unfold f1, del_ent. rewrite Hdir. apply (set_ents_twice f dd p es). exact Hdir. }
+  assert (S2 : step (T2 dd n1 n2) b f f2).
+  { rewrite E2. apply (step_set_ents D (T2 dd n1 n2) b f dd p es); auto.
+    - intros m Hm. rewrite blookup_bset_other by (intro; subst; apply Hm; split; auto).
+      apply blookup_bremove_other. intro; subst; apply Hm; split; auto.
+    - apply bset_nodup. apply bremove_nodup. exact Hnd.
+    - apply Forall_forall. intros x Hx. apply bset_fst in Hx. destruct Hx as [->|Hx]; auto.
+      apply bremove_fst_In in Hx. rewrite Forall_forall in Hok. auto.
+    - intros m x Hin. apply bset_In in Hin. destruct Hin as [Hin|Hin].
+      + injection Hin as -> ->. split; [apply (reach_lt D f i W Ri)|]. split; auto.
+        left. exists n1. apply blookup_In. exact Hb1.
+      + apply bremove_In in Hin. rewrite <- Hes in Hin. split; [|split].
+        * apply (wf_target D f W dd m x Rdd Hin).
+        * intro; subst. apply (wf_notD D f W dd m Rdd Hin).
+        * left. exists m. rewrite <- Hes. exact Hin.
+    - intros m1 m2 x I1 I2 Hdx. apply bset_In in I1. apply bset_In in I2.
+      assert (Hcross : forall m, In (m, i) (bremove n1 es) -> is_dir f i = true -> False).
+      { intros m Hm Hdi. pose proof (bremove_In _ _ _ Hm) as Hm'.
+        assert (E : m = n1).
+        { rewrite <- Hes in Hm'. pose proof (blookup_In _ _ _ Hb1) as H1. rewrite <- Hes in H1.
+          destruct (wf_single D f W dd dd m n1 i Rdd Rdd Hm' H1 Hdi). auto. }
+        subst m. apply (bremove_notin n1 es Hnd). change n1 with (fst (n1, i)). apply in_map. exact Hm. }
+      destruct I1 as [I1|I1], I2 as [I2|I2].
+      + inversion I1; inversion I2; subst. reflexivity.
+      + inversion I1; subst. exfalso. apply (Hcross m2); auto.
+      + inversion I2; subst. exfalso. apply (Hcross m1); auto.
+      + apply bremove_In in I1, I2. rewrite <- Hes in I1, I2.
+        apply (wf_single D f W dd dd m1 m2 x); auto. }
+  assert (Hb2 : blookup n2 (ents f2 dd) = Some i).
+  { rewrite E2. destruct (dir_of_get f dd p es Hdir) as [m Hg]. rewrite (set_ents_get f dd p es m _ Hg).
+    unfold ents, dir_of. rewrite get_put_same. apply blookup_bset_same. }
+  unfold f3. destruct (is_dir f i) eqn:Hdi; [|split; auto].
+  assert (W2 : wf f2) by (apply (st_wf _ _ _ _ _ S2)).
+  assert (Hw2 : rwalk f2 D pre = Some dd) by (apply (rwalk_parent_kept b f f2 pre dd n1 n2); auto).
+  destruct (dentry_reach f2 pre dd n2 i Hw2 Hb2) as [Rdd2 Ri2].
+  assert (S3 : step (fun _ _ => False) b f2 (set_parent f2 i dd)).
+  { apply (step_set_parent D); auto. pose proof (st_next _ _ _ _ _ S2). lia. }
+  split.
+  - apply (step_trans D _ b f f2); auto. apply (step_weaken D (fun _ _ => False)); [tauto|exact S3].
+  - rewrite (st_dent _ _ _ _ _ S3 dd n2); auto. apply (reach_lt D f2 dd W2 Rdd2).
+Qed.
+
+
+(* ================= the system calls ================= *)
+Lemma removelast_snoc {A} (l : list A) x : removelast (l ++ [x]) = l.
+Proof. apply removelast_last. Qed.
+
+Lemma rres_complete f : forall pre j n cur, rwalk f cur pre = Some j -> is_dir f j = true ->
+  rres f cur (pre ++ [n]) = inl {| l_dir := j; l_name := n; l_ino := blookup n (ents f j) |}.
+Proof.
+  induction pre as [|c pre IH]; intros j n cur Hw Hd.
+  - simpl in Hw. inversion Hw; subst. simpl. unfold is_dir, ents in *.
+    destruct (dir_of f j) as [[p es]|]; [|discriminate]. destruct (blookup n es); reflexivity.
+  - simpl in Hw. change ((c :: pre) ++ [n]) with (c :: (pre ++ [n])). cbn [rres].
+    destruct (dir_of f cur) as [[p es]|]; [|discriminate].
+    destruct (blookup c es) as [i|]; [|discriminate].
+    assert (En : is_nil (pre ++ [n]) = false) by (destruct pre; reflexivity). rewrite En. apply IH; auto.
+Qed.
+
+Section Call.
+Variables (T : N -> bytes -> Prop) (b : N) (c : ctx) (f : fs) (p : bytes) (pre : list bytes) (n : bytes).
+Hypothesis W : wf f.
+Hypothesis Hb : b <= f_next f.
+Hypothesis Hc : c_cwd c = D.
+Hypothesis Hrel : relpath p (pre ++ [n]).
+Hypothesis Hsafe : safe f D pre.
+Hypothesis HT : forall dd, rwalk f D pre = Some dd -> T dd n.
+
+Lemma call_okname : okname n.
+Proof. destruct Hrel as (_ & _ & _ & _ & _ & H). apply (okname_last pre n H). Qed.
+
+(* how the final component resolves without following *)
+Lemma resolve_nofollow :
+  (exists e, resolve c f p false = inr e) \/
+  (exists dd, rwalk f D pre = Some dd /\ is_dir f dd = true /\
+     resolve c f p false = inl {| l_dir := dd; l_name := n; l_ino := blookup n (ents f dd) |}).
+Proof.
+  destruct (resolve_cases c f p (pre ++ [n]) false Hc Hrel) as [H|(pre' & n' & dd & E & Hw & Hd & Hr)].
+  - right. split; auto. rewrite removelast_snoc. exact Hsafe.
+  - left. exact H.
+  - apply app_inj_tail in E. destruct E as [-> ->]. right. exists dd. auto.
+Qed.
+
+Lemma resolve_follow : safe f D (pre ++ [n]) ->
+  (exists e, resolve c f p true = inr e) \/
+  (exists dd, rwalk f D pre = Some dd /\ is_dir f dd = true /\
+     resolve c f p true = inl {| l_dir := dd; l_name := n; l_ino := blookup n (ents f dd) |}).
+Proof.
+  intros Hfull.
+  destruct (resolve_cases c f p (pre ++ [n]) true Hc Hrel (or_introl Hfull)) as [H|(pre' & n' & dd & E & Hw & Hd & Hr)].
+  - left. exact H.
+  - apply app_inj_tail in E. destruct E as [-> ->]. right. exists dd. auto.
+Qed.
+
+Lemma nil_name : is_nil n = false.
+Proof. destruct call_okname as [(H & _) _]. destruct n; [congruence|reflexivity]. Qed.
+
+(* ---- lstat ---- *)
+Lemma lstat_stat i nd : snd (sys_lstat c f p) = RStat i nd ->
+  exists dd, rwalk f D pre = Some dd /\ is_dir f dd = true /\ blookup n (ents f dd) = Some i /\ get f i = Some nd.
+Proof.
+  intros H. destruct (sys_lstat_stat c f p (pre ++ [n]) i nd Hc Hrel) as (pre' & n' & dd & E & Hw & Hd & Hbl & Hg); auto.
+  - rewrite removelast_snoc. exact Hsafe.
+  - apply app_inj_tail in E. destruct E as [-> ->]. exists dd. auto.
+Qed.
+
+(* lstat said ENOENT: whatever the name leads to is no symlink *)
+Lemma lstat_enoent_safe : snd (sys_lstat c f p) = RErr ENOENT -> safe f D (pre ++ [n]).
+Proof.
+  intros H. apply safe_app. split; auto. intros j Hj. apply safe_unfold.
+  destruct (blookup n (ents f j)) as [i|] eqn:Eb; auto. split; [|exact I].
+  destruct (is_link f i) eqn:El; auto. exfalso.
+  assert (Hdj : is_dir f j = true).
+  { unfold is_dir. unfold ents in Eb. destruct (dir_of f j) as [[q es]|]; auto. discriminate. }
+  assert (Hres : resolve c f p false = inl {| l_dir := j; l_name := n; l_ino := Some i |}).
+  { destruct Hrel as (Hp & Habs & Hsep & Hpcs & Hne & Hok).
+    apply okname_forall in Hok. destruct Hok as [Hn _].
+    unfold resolve in *. destruct p as [|a p']; [congruence|].
+    unfold sys_lstat, resolve_ino, resolve in H.
+    destruct (has_nul (a :: p')); [discriminate|].
+    rewrite Hsep, Habs, Hpcs, Hc, orb_false_r in *. revert H. generalize rfuel. intros fuel H.
+    destruct (walk_rres fuel f (c_root c) D (pre ++ [n]) false 0 Hn) as [E|E].
+    - right. split; auto. rewrite removelast_snoc. exact Hsafe.
+    - rewrite E. rewrite (rres_complete f pre j n D Hj Hdj), Eb. reflexivity.
+    - rewrite E in H. discriminate. }
+  unfold sys_lstat, resolve_ino in H. rewrite Hres in H. simpl in H.
+  unfold is_link in El. destruct (get f i) as [[k m]|]; [|discriminate]. discriminate.
+Qed.
+
+(* ---- creating calls ---- *)
+Definition created (f' : fs) (k : ikind) : Prop :=
+  exists dd m, rwalk f D pre = Some dd /\ is_dir f dd = true /\ blookup n (ents f dd) = None
+            /\ blookup n (ents f' dd) = Some (f_next f) /\ get f' (f_next f) = Some {| i_kind := k; i_meta := m |}.
+
+Lemma create_common isdir k mode : leaf {| i_kind := k; i_meta := new_meta f D isdir mode |} ->
+  forall dd, rwalk f D pre = Some dd -> is_dir f dd = true -> blookup n (ents f dd) = None ->
+  let f' := fst (create_at f {| l_dir := dd; l_name := n; l_ino := None |} isdir k mode) in
+  step T b f f' /\ created f' k /\ snd (create_at f {| l_dir := dd; l_name := n; l_ino := None |} isdir k mode) = f_next f.
+Proof.
+  intros Hl dd Hw Hd Hbl f'.
+  destruct (step_create_at T b f pre n dd isdir k mode W Hb Hw Hd call_okname Hbl (HT dd Hw)) as (S & B1 & B2 & B3).
+  - unfold leaf in *. simpl in *. exact Hl.
+  - split; auto. split; auto. exists dd, (new_meta f dd isdir mode). auto.
+Qed.
+
+Lemma sys_mkdir_step mode :
+  let f' := fst (sys_mkdir c f p mode) in
+  step T b f f' /\ (snd (sys_mkdir c f p mode) = ROk -> exists d0, created f' (KDir d0 [])).
+Proof.
+  unfold sys_mkdir. destruct resolve_nofollow as [[e He]|(dd & Hw & Hd & Hr)].
+  - rewrite He. simpl. split; [apply step_refl; auto|discriminate].
+  - rewrite Hr. cbn [l_ino l_dir]. destruct (blookup n (ents f dd)) eqn:Eb.
+    + simpl. split; [apply step_refl; auto|discriminate].
+    + destruct (create_common true (KDir dd []) (N.land mode mkdir_mask) eq_refl dd Hw Hd Eb) as (S & C & _).
+      cbn [fst snd]. split; eauto.
+Qed.
+
+Lemma sys_mknod_step typ mode rdev :
+  let f' := fst (sys_mknod c f p typ mode rdev) in
+  step T b f f' /\ (snd (sys_mknod c f p typ mode rdev) = ROk -> exists t r, created f' (KSpecial t r)).
+Proof.
+  unfold sys_mknod. destruct resolve_nofollow as [[e He]|(dd & Hw & Hd & Hr)].
+  - rewrite He. simpl. split; [apply step_refl; auto|discriminate].
+  - rewrite Hr. cbn [l_ino l_dir]. destruct (blookup n (ents f dd)) eqn:Eb.
+    + simpl. split; [apply step_refl; auto|discriminate].
+    + match goal with |- context [create_at f ?r false (KSpecial ?t ?rd) ?m] =>
+        destruct (create_common false (KSpecial t rd) m I dd Hw Hd Eb) as (S & C & _) end.
+      cbn [fst snd]. split; eauto.
+Qed.
+
+Lemma sys_symlink_step target :
+  let f' := fst (sys_symlink c f target p) in
+  step T b f f' /\ (snd (sys_symlink c f target p) = ROk -> created f' (KLink target)).
+Proof.
+  unfold sys_symlink. destruct target as [|t0 tr]; [simpl; split; [apply step_refl; auto|discriminate]|].
+  destruct (has_nul (t0 :: tr)); [simpl; split; [apply step_refl; auto|discriminate]|].
+  destruct resolve_nofollow as [[e He]|(dd & Hw & Hd & Hr)].
+  - rewrite He. simpl. split; [apply step_refl; auto|discriminate].
+  - rewrite Hr. cbn [l_ino l_dir]. destruct (blookup n (ents f dd)) eqn:Eb.
+    + simpl. split; [apply step_refl; auto|discriminate].
+    + destruct (create_common false (KLink (t0 :: tr)) 511 I dd Hw Hd Eb) as (S & C & _).
+      cbn [fst snd]. split; eauto.
+Qed.
+
+(* open(O_WRONLY|O_CREAT) follows the final component: the whole path must be safe *)
+Lemma sys_open_creat_step mode : safe f D (pre ++ [n]) ->
+  let f' := fst (sys_open_wronly c f p true mode) in
+  step T b f f' /\
+  (forall i, snd (sys_open_wronly c f p true mode) = RFd i ->
+     (f' = f /\ exists dd nd, rwalk f D pre = Some dd /\ blookup n (ents f dd) = Some i /\ get f i = Some nd /\ ktag (i_kind nd) = 1)
+     \/ (i = f_next f /\ created f' (KFile []))).
+Proof.
+  intros Hfull. unfold sys_open_wronly. destruct (resolve_follow Hfull) as [[e He]|(dd & Hw & Hd & Hr)].
+  - rewrite He. simpl. split; [apply step_refl; auto|discriminate].
+  - rewrite Hr. cbn [l_ino l_dir]. destruct (blookup n (ents f dd)) as [i|] eqn:Eb.
+    + destruct (get f i) as [[k m]|] eqn:Eg; [destruct k|]; simpl; (split; [apply step_refl; auto|]); try discriminate.
+      intros i' H. inversion H; subst. left. split; auto. exists dd, {| i_kind := KFile data; i_meta := m |}. auto.
+    + destruct (create_common false (KFile []) (N.land mode perm_mask) I dd Hw Hd Eb) as (S & C & E).
+      destruct (create_at f {| l_dir := dd; l_name := n; l_ino := None |} false (KFile []) (N.land mode perm_mask)) as [f1 i1] eqn:Ec.
+      cbn [fst snd] in *. split; auto. intros i' H. inversion H; subst. right. auto.
+Qed.
+
+End Call.
 End Sys.
